@@ -1,5 +1,5 @@
 (* C19 — Bloom filters never hide a key that is present.
-   Theorem statements only; every proof is `exact <lemma>` from A/BloomProofs.v.
+   Only theorem statements here; every proof is `exact <lemma>` from A/BloomProofs.v.
    `Some`/`None`: None is the Go run-time panic `h % 0` (filter bit count = 0 mod 2^32, i.e. a
    filter of a multiple of 512 MiB); no theorem silently excludes it: a filter that was built
    (`new_filter .. = Some f`) answers `Some true` for every added hash. *)
